@@ -81,6 +81,29 @@ def legal(d, v):
     return True
 
 
+def dup_types(d):
+    """duplicate Type numbers per level, for the message"""
+    out = []
+
+    def walk(dd, path):
+        seen = {}
+        for t, fd in dd[2]:
+            for x in [t] + ([fd[2]] if fd[0] == 'map' else []):
+                seen[x] = seen.get(x, 0) + 1
+            subs = [fd] if fd[0] == 'model' else [fd[1]] if fd[0] == 'rep' else [fd[3]] if fd[0] == 'map' else []
+            for sd in subs:
+                if sd[0] == 'model':
+                    walk(sd, path + [t])
+        d2 = [hex(t) for t, n in seen.items() if n > 1]
+        if d2:
+            out.append((path, d2))
+    try:
+        walk(d, [])
+    except Exception:   # noqa
+        pass
+    return out
+
+
 def wf_desc(d):
     """Well-formed descriptor in the sense of Spec/TlvWf.v (the hypothesis of the C08 theorems): Type numbers of
     a level (fields and map value types) pairwise distinct, recursively.  Python happily builds classes that
@@ -161,7 +184,7 @@ def unknown_types(d):
     return nc, cr
 
 
-def run_class(ctx, M, d, nvals, origin):
+def run_class(ctx, M, d, nvals, origin, shipped=False):
     """d: reflected descriptor (with class refs) of a top-level model class."""
     rng = ctx.rng
     cls = d[3]
@@ -176,7 +199,14 @@ def run_class(ctx, M, d, nvals, origin):
         def violation(*a, **k):
             ctx.stat('oracle-skipped.not-wf')
     real_ctx = ctx
-    if not wf:
+    if not wf and shipped:
+        # a model shipped with the library is inside the property whatever its shape: two fields of one level with the
+        # same Type number cannot both survive a round trip (the decoder gives the element to the first one it has
+        # not passed), so the descriptor itself is the failing input; the value oracles below stay on
+        ctx.violation('shipped-model', 'descriptor-not-well-formed',
+                      f'{origin}: the declared fields are not well-formed (duplicate Type numbers in one level, illegal '
+                      f'fixed_len, ...): {dup_types(d)}', {'class': origin, 'fields': repr(TG.strip(d))[:1500]})
+    if not wf and not shipped:
         ctx = type('CtxView', (), {'violation': _Quiet.violation, '__getattr__': lambda self, n: getattr(real_ctx, n)})()
     for _ in range(nvals):
         v = TG.rand_value(rng, d, big=False)
@@ -323,7 +353,7 @@ def run(ctx):
         except D.Unsupported as e:
             ctx.disagree('reflect', f'unsupported field in {c.__name__}: {e}', c.__name__)
             continue
-        run_class(ctx, M, d, ctx.n(6, 150), 'shipped:' + c.__name__)
+        run_class(ctx, M, d, ctx.n(6, 150), 'shipped:' + c.__name__, shipped=True)
     # random classes
     for i in range(ctx.n(160, 6000)):
         spec = TG.rand_model(rng, rng.choice([0, 1, 1, 2, 2, 3]))
